@@ -5,6 +5,8 @@ import (
 	"strings"
 	"unicode/utf8"
 
+	"google.golang.org/protobuf/encoding/protowire"
+
 	"github.com/temporalio/s2s-proxy/common"
 	failure122 "github.com/temporalio/s2s-proxy/proto/1_22/api/failure/v1"
 )
@@ -12,7 +14,51 @@ import (
 const (
 	maxFailureDepth      = 10
 	replacementCharacter = string(utf8.RuneError)
+	// maxWireNesting is the recursion limit of the standard protobuf decoder. The generated gogo decoders of the
+	// 1.22 schema have no limit of their own and recurse once per nested message.
+	maxWireNesting = 10000
 )
+
+// CheckNestingDepth returns an error if data, read as a protobuf message, nests length-delimited fields more than
+// the standard decoder would accept. It must be called before bytes from the network are handed to a gogo-based
+// decoder: an absurdly deep encoding (millions of failure causes) would otherwise overflow the goroutine stack,
+// which is fatal for the whole process. The scan knows no schema: the content of a non-empty length-delimited field
+// sits one level below the field, and a bytes or string field that happens to be a well-formed message is scanned
+// as one. Every byte is looked at once.
+func CheckNestingDepth(data []byte) error {
+	if wireNestingExceeds(data, maxWireNesting) {
+		return fmt.Errorf("message nests more than %d levels deep", maxWireNesting)
+	}
+	return nil
+}
+
+// wireNestingExceeds reports whether b is a well-formed sequence of fields one of which nests deeper than limit.
+// Input that is not well-formed is a leaf for the caller: it reports false.
+func wireNestingExceeds(b []byte, limit int) bool {
+	for len(b) > 0 {
+		num, typ, n := protowire.ConsumeTag(b)
+		if n < 0 || num <= 0 {
+			return false
+		}
+		b = b[n:]
+		if typ != protowire.BytesType {
+			if n = protowire.ConsumeFieldValue(num, typ, b); n < 0 {
+				return false
+			}
+			b = b[n:]
+			continue
+		}
+		v, n := protowire.ConsumeBytes(b)
+		if n < 0 {
+			return false
+		}
+		b = b[n:]
+		if len(v) > 0 && (limit <= 0 || wireNestingExceeds(v, limit-1)) {
+			return true
+		}
+	}
+	return false
+}
 
 // In old versions of Temporal, it was possible that certain history events could
 // be written with invalid UTF-8. This function will automatically repair the invalid
@@ -34,6 +80,9 @@ func convertAndRepairInvalidUTF8(data []byte, v any) error {
 		return fmt.Errorf("could not convert %T to gogo-based protobuf type", v)
 	}
 
+	if err := CheckNestingDepth(data); err != nil {
+		return fmt.Errorf("could not unmarshal data into %T: %w", msg122, err)
+	}
 	if err := msg122.Unmarshal(data); err != nil {
 		return fmt.Errorf("could not unmarshal data into %T: %w", msg122, err)
 	}
